@@ -72,6 +72,9 @@ def _multiline_string_reads_back(string: str, indent: int) -> bool:
     lines = string.split("\n")
     if all(line.startswith(" ") for line in lines):
         return False
+    if any(line.endswith("\r") for line in lines):
+        # A carriage return in front of a line feed is read as part of the line end.
+        return False
     if indent == 0 and lines[-1].strip(" ") == "":
         return False
     return True
